@@ -55,6 +55,9 @@ Proof.
   destruct (p s), (q s); pr.
 Qed.
 
+Lemma prel_restore {A} (R : A -> A -> Prop) p q : prel R p q -> prel R (p_restore p) (p_restore q).
+Proof. intros H s. specialize (H s). unfold p_restore, pres_rel in *. destruct (p s), (q s); pr. Qed.
+
 Lemma prel_opt {A} (R : A -> A -> Prop) p q : prel R p q -> prel (opt_rel R) (p_opt p) (p_opt q).
 Proof. intros H s. specialize (H s). unfold p_opt, pres_rel in *. destruct (p s), (q s); pr. Qed.
 
@@ -356,6 +359,7 @@ Ltac prel_auto :=
   lazymatch goal with
   | |- prel _ (p_map _ _) (p_map _ _) => eapply prel_map; [ prel_auto | intros ? ? ?; fin ]
   | |- prel _ (p_alt _ _) (p_alt _ _) => eapply prel_alt; prel_auto
+  | |- prel _ (p_restore _) (p_restore _) => eapply prel_restore; prel_auto
   | |- prel _ (p_pair _ _) (p_pair _ _) => eapply prel_pair; prel_auto
   | |- prel _ (p_opt _) (p_opt _) => eapply prel_opt; prel_auto
   | |- prel _ (p_info _) (p_info _) => eapply prel_info; prel_auto
